@@ -64,14 +64,19 @@ def _run_suite(prop, suite, stats):
     """fills case.impl / case.model; returns (divergences, oracle_hits)"""
     binary = core.harness_build(**suite.binary_opts)
     impl = (suite.runner or core.run_impl)([c.line for c in suite.cases], binary)
-    model = core.run_model([c.coq for c in suite.cases], suite.header, prop.pid + "_" + suite.name) if suite.compare else [None] * len(suite.cases)
+    # (cases of a kind that has no lock-step model carry no model term: they are judged by the oracles only)
+    with_model = [c for c in suite.cases if c.coq is not None] if suite.compare else []
+    tag = "".join(ch if ch.isalnum() else "_" for ch in suite.name)
+    mres = core.run_model([c.coq for c in with_model], suite.header, prop.pid + "_" + tag) if with_model else []
+    mmap = {id(c): m for c, m in zip(with_model, mres)}
+    model = [mmap.get(id(c)) for c in suite.cases]
     div, hits = [], []
     for c, i, m in zip(suite.cases, impl, model):
         c.impl, c.model = i, m
         stats["evaluations"] += 1
         if i is None:
             div.append((c, "the harness died on this case")); continue
-        if suite.compare:
+        if suite.compare and c.coq is not None:
             d = core.first_divergence(i, m)
             if d is not None:
                 div.append((c, "record #%d: implementation %s / model %s" % d))
